@@ -79,3 +79,77 @@ def run_conc(mode, histories, clients, ops, seed, nproc=8, race=False):
                 if os.path.exists(path) and os.path.getsize(path) > 0:
                     out["hist_files"].append(path)
     return out
+
+
+# ---- locality: linearizability is compositional per object (Herlihy & Wing), so a history of single-key commands is
+# linearizable iff each per-key sub-history is. Splitting keeps TraceLin's set of candidate configurations small: with
+# write-only bursts on 16 keys the unsplit set is the PRODUCT of the per-key ambiguities.
+_SINGLE_KEY = {"SET", "GET", "INCR", "DECR", "INCRBY", "DECRBY", "APPEND", "SETNX", "STRLEN", "GETRANGE", "SETRANGE", "RPUSH", "LPUSH", "LPOP", "RPOP",
+               "LLEN", "LRANGE", "LINDEX", "SADD", "SREM", "SCARD", "SMEMBERS", "SISMEMBER", "HINCRBY", "HGET", "HSET", "HDEL", "HLEN", "HGETALL",
+               "ZADD", "ZREM", "ZRANGE", "ZRANK", "XADD", "XRANGE", "TTL", "TYPE", "EXPIRE", "PERSIST"}
+
+
+def _key_of(argv):
+    name = bytes(argv[0]).decode("latin1").upper()
+    if name in _SINGLE_KEY and len(argv) >= 2:
+        return bytes(argv[1])
+    if name in ("DEL", "EXISTS") and len(argv) == 2:
+        return bytes(argv[1])
+    return None
+
+
+def split_by_key(path, out_path):
+    """Rewrite the histories of `path` as per-key sub-histories when every command of a history is a single-key command.
+    Returns {new h: (old h, key)}; histories that contain anything else are copied unchanged (new h = old h * 1000)."""
+    groups, order = {}, []
+    for line in open(path):
+        e = json.loads(line)
+        if e["h"] not in groups:
+            groups[e["h"]] = []
+            order.append(e["h"])
+        groups[e["h"]].append(e)
+    mapping = {}
+    with open(out_path, "w") as f:
+        for h in order:
+            evs = [e for e in groups[h] if e["ev"] != "reset"]
+            keyof, ok = {}, True
+            for e in evs:
+                if e["ev"] in ("inv", "setup"):
+                    k = _key_of(e["argv"])
+                    if k is None:
+                        ok = False
+                        break
+                    keyof[e["id"]] = k
+            if not ok:
+                nh = h * 1000
+                mapping[nh] = (h, None)
+                f.write(json.dumps({"ev": "reset", "h": nh, "id": 0, "now": 0, "argv": [], "answered": False}) + "\n")
+                for e in evs:
+                    f.write(json.dumps(dict(e, h=nh)) + "\n")
+                continue
+            keys = []
+            for e in evs:
+                k = keyof.get(e["id"])
+                if k is not None and k not in keys:
+                    keys.append(k)
+            for i, k in enumerate(keys):
+                nh = h * 1000 + i + 1
+                mapping[nh] = (h, k.decode("latin1"))
+                f.write(json.dumps({"ev": "reset", "h": nh, "id": 0, "now": 0, "argv": [], "answered": False}) + "\n")
+                for e in evs:
+                    if keyof.get(e["id"]) == k:
+                        f.write(json.dumps(dict(e, h=nh)) + "\n")
+    return mapping
+
+
+def validate_hist_split(path, timeout=1500):
+    """validate_hist on the per-key split of `path`; NONLIN records carry the original history number in 'h' and the
+    sub-history file to print from in 'path'."""
+    sp = path + ".bykey.ndjson"
+    mapping = split_by_key(path, sp)
+    nonlin, states = validate_hist(sp, timeout=timeout)
+    for n in nonlin:
+        n["sub_h"] = n["h"]
+        n["h"], n["key"] = mapping.get(n["h"], (n["h"], None))
+        n["path"] = sp
+    return nonlin, states
